@@ -287,8 +287,13 @@ func (e *Exec) scalarOf(v Val) Scalar {
 		return S("%s", x.Arr)
 	case HeapAddr:
 		// interior pointer: an opaque ref determined by (object, field)
-		e.decl(fmt.Sprintf("(declare-fun |$interior.%s| (Ref) Ref)", x.Key))
-		return S("(|$interior.%s| %s)", x.Key, x.Ref)
+		f := fmt.Sprintf("|$interior.%s|", x.Key)
+		e.decl(fmt.Sprintf("(declare-fun %s (Ref) Ref)", f))
+		// interior pointers of different fields are different references, and one field's are injective in the object
+		e.decl("(declare-fun |$ikind| (Ref) Int)")
+		e.decl("(declare-fun |$iowner| (Ref) Ref)")
+		e.declOwned(f, fmt.Sprintf("(assert (forall ((r Ref)) (! (and (= (|$ikind| (%s r)) %d) (= (|$iowner| (%s r)) r) (not (= (%s r) null))) :pattern ((%s r)))))", f, typeIDStr(x.Key), f, f, f))
+		return S("(%s %s)", f, x.Ref)
 	case ClosureV:
 		n := "|" + e.freshName("closure") + "|"
 		e.decl(fmt.Sprintf("(declare-const %s Ref)", n))
@@ -772,4 +777,10 @@ func sortedKeys[V any](m map[string]V) []string {
 	}
 	sort.Strings(ks)
 	return ks
+}
+
+func typeIDStr(k string) int {
+	h := fnv.New32a()
+	h.Write([]byte(k))
+	return int(h.Sum32()%1000000007) + 1
 }
